@@ -182,6 +182,37 @@ def stepTiny (st : TinySt) (tl : Tally) (act : String) (ans : String) : TinySt Ã
           s!"rows={showNatLists rows} bits={showNatList bits} w={w}")
       | none => (st', tl.divergeAt "tiny.inc" "panic" "returned")
     | _, _, _, _, _ => (st, tl.badAt act)
+  | ["tiny.incs", hs] =>
+    -- a whole batch (`TinyLFU::increments`): the model records the accesses one by one
+    match st.t, parseNatList hs, getNatLists r "rows", getNatList r "bits", getNat r "w" with
+    | some t, some batch, some rows, some bits, some w =>
+      let tl := tl.bump "tiny.incs"
+      let tImpl : TinyLFU := { (withRows t rows) with dk := bloomOfBits t.dk bits, w := w }
+      -- ghosts, access by access
+      let (since, dueW, sinceDue) := batch.foldl (fun (acc : List Nat Ã— Nat Ã— List Nat) h =>
+        let (since, dueW, sinceDue) := acc
+        -- `since` follows the model's own counter below; the C15 ghost counts for itself
+        let dueFires := dueW + 1 â‰¥ t.samples
+        (h :: since, (if dueFires then 0 else dueW + 1), (if dueFires then [] else h :: sinceDue))) (st.since, st.dueW, st.sinceDue)
+      let modelRun := batch.foldl (fun (acc : Option (TinyLFU Ã— List Nat)) h =>
+        match acc with
+        | none => none
+        | some (m, sn) => match m.increment h with
+          | some m' => some (m', if m.w + 1 â‰¥ m.samples then [] else h :: sn)
+          | none => none) (some (t, st.since))
+      let _ := since
+      match modelRun with
+      | some (m, sn) =>
+        let st' := { st with t := some tImpl, since := sn, dueW := dueW, sinceDue := sinceDue }
+        let tl := if m.w == w then tl else
+          (tl.monitorAt "C13" s!"after a batch of {batch.length} recorded accesses w = {w}; the counters are halved after every {t.samples} recorded accesses, also when that falls inside a batch, so w should be {m.w}").monitorAt "C15"
+            s!"after a processed batch of {batch.length} lookups the aging window stands at {w} instead of {m.w}: the reset due inside the batch was not applied where it fell"
+        if rowsOf m == rows && m.dk.canon == bits && m.w == w then (st', { tl with ok := tl.ok + 1 })
+        else (st', tl.divergeAt "tiny.incs"
+          s!"rows={showNatLists (rowsOf m)} bits={showNatList m.dk.canon} w={m.w}"
+          s!"rows={showNatLists rows} bits={showNatList bits} w={w}")
+      | none => ({ st with t := some tImpl }, tl.divergeAt "tiny.incs" "panic" "returned")
+    | _, _, _, _, _ => (st, tl.badAt act)
   | ["tiny.est", h] =>
     match st.t, h.toNat?, (splitWs ans).head?.bind String.toNat? with
     | some t, some h, some v =>
